@@ -18,8 +18,10 @@ EXPLANATION = (
     'the decode default; R3 window discipline: every read of `data` in decode()/decode_header() is bounded by '
     'offset+size (CFG lower bounds on `size`), TLV and sub-PDU lengths must be compared with the remaining '
     'size; R4 pdu_type_map keys equal the ptype literals passed by the constructors; R5 header/sequence/FRMR '
-    'bit-field layouts extracted from encode and decode are inverse over the whole field domain; R6 per TLV '
-    'type the encoder format and the decoder length test/format agree; R7 no unbounded recursion in the decode '
+    'bit fields: encode folded over the whole field domain and decode folded on the result give the fields back; R6 per TLV '
+    'type encode folded for sample values and decode folded on the result agree, the decoder refuses the type with any other '
+    'length and masks exactly the reserved bits; where the offset/size window rules cannot follow the spelling of '
+    'AggregatedFrame.decode an aggregate sweep against an independent reader decides it; R7 no unbounded recursion in the decode '
     'call graph; R8 per PDU class and TLV type the field stored by decode (V + c) and the value handed to Parameter.encode (field - c) are inverse, no one-sided normalisation.  Decides the structural clauses only; decode(encode(p)) == p for payload bytes is not claimed.')
 
 
